@@ -46,6 +46,16 @@ def _foreign(rng_seed, kind, D=None):
             except Exception:
                 pass
         return
+    if kind == "onbound":
+        # another problem whose start point lies ON a hard bound (the constructor moves it inside and says so)
+        from pybads import BADS
+        d = r.choice([1, 2, 3])
+        x0 = np.full(d, 0.3); x0[0] = -4.0
+        try:
+            BADS(lambda x: float(np.sum(np.asarray(x) ** 2)), x0, np.full(d, -4.0), np.full(d, 6.0), np.full(d, -2.0), np.full(d, 3.0), options={"display": r.choice(["off", "iter"])})
+        except Exception:
+            pass
+        return
     if kind == "pyrandom":
         # the standard library's global generator (not reset by random_seed): reseeded and advanced by other code of the process
         random.seed(r.randint(0, 10 ** 6))
@@ -216,6 +226,11 @@ def run(ctx):
         sp = gen.make_spec(rng, D=rng.choice([1, 2, 3]), geom="logbox", mode=rng.choice(["det", "det", "decl"]), cons=None)
         sp["options"] = gen.small_options(rng, sp["D"], sp["mode"])
         specs.append(sp)
+    # problems whose start point lies on a hard bound, after another such problem was constructed in the same process ("onbound" history)
+    for _ in range(2 if ctx.quick else 6):
+        sp = gen.make_spec(rng, D=rng.choice([1, 2, 3]), geom="x0_on_bound", mode=rng.choice(["det", "det", "decl"]), cons=None)
+        sp["options"] = gen.small_options(rng, sp["D"], sp["mode"])
+        specs.append(sp)
     for sp, sd in zip(specs, [0, 2 ** 31 - 1, 1]):       # boundary seed values: 0 is a valid seed
         sp["seed"] = sd
     # runs in which GP fits fail and are retried (every 2nd / 3rd invocation, or single failures)
@@ -240,6 +255,8 @@ def run(ctx):
                 pre = ["sibling"] + pre[:1]
             if v == 1 and sp["geom"] in ("logbox", "box", "tight") and si % 2 == 0:
                 pre = ["twin"] + pre[:1]
+            if sp["geom"] == "x0_on_bound":
+                pre = ["onbound"] + pre[:1]
             if si >= n_plain and v == 1:
                 pre = ["pyrandom"] + pre[:1]
             if not pre and not mid:
@@ -278,7 +295,7 @@ def run(ctx):
             rep.violation("same_result", "bads.py:random seeding", f"result differs from the fresh-process run: {r['out']} vs {b['out']}; {tag}", case)
     rep.coverage = {
         "evaluations": stats["pairs"] + nx, "distinct_nontrivial": stats["pairs"] + nx, "cross_process_pairs": nx,
-        "rule": "one evaluation = one history pair: the same problem/options/seed run in a fresh process and after a generated foreign history (raw np.random consumption, use of the standard library's global generator, other BADS constructions and runs with other D/options, a twin instance constructed from the very same argument objects, "
+        "rule": "one evaluation = one history pair: the same problem/options/seed run in a fresh process and after a generated foreign history (raw np.random consumption, use of the standard library's global generator, other BADS constructions and runs with other D/options, a twin instance constructed from the very same argument objects, another problem with its start point on a hard bound, "
                 "before the construction and between construction and run; sibling instances of the same dimension with other option values), plus pairs of SEPARATE interpreter processes "
                 "with different hash randomisation (PYTHONHASHSEED), compared bit for bit (every evaluated point, x, fval, fsd, func_count, message, x0); plus the seeding discipline (first generator use in __init__ and optimize() is seed(s))",
         "samples": [{"spec": specs[0], "pre": meta[1][2], "mid": meta[1][3]}], "stats": stats, "traces_validated_against_impl": stats["pairs"],
